@@ -39,6 +39,8 @@ THEOREMS = [
     "Nix.C09.scalable_iff_same_unit_power",
     "Nix.C09.scalable_lists",
     "Nix.C09.atomic_exact",
+    "Nix.C09.compound_exact",
+    "Nix.C09.si_exact",
     "Nix.C09.sanitizer_atoms",
     "Nix.C09.sanitizer_blanks",
     "Nix.C09.sanitizer_micro_spellings",
@@ -49,9 +51,14 @@ ASSUMPTIONS = [
     "`\\d` is modelled as ASCII digits; inputs with non-ASCII digits are outside the model and the generators",
     "scaling factors are exact rationals in the model; the float result is compared within 1e-13 relative",
     "'same power' is read as the same power text ('m^1' vs 'm' is refused by the code; conservative, documented)",
+    "powers beyond the float range (|exponent difference x power| > 280) are covered by the theorems (exact "
+    "rationals) but not generated for the float comparison (OverflowError / underflow to 0.0 in the code)",
 ]
 TRUSTED_EXTRA = ["harness/extract/units.py renders PREFIXES/UNITS/POWER/PREFIX_FACTORS, regex shapes, the scaling "
-                 "branch condition and the sanitizer replace chain"]
+                 "branch condition and the sanitizer replace chain",
+                 "harness/extract/units_compound.py renders the branch table of invert_power and the lookahead / "
+                 "clean-up / inverting separator of split_compound",
+                 "harness/extract/units_scaling.py renders the statement shape of scaling()"]
 
 SI_EXP = {"Y": 24, "Z": 21, "E": 18, "P": 15, "T": 12, "G": 9, "M": 6, "k": 3, "h": 2, "da": 1, "": 0,
           "d": -1, "c": -2, "m": -3, "u": -6, "n": -9, "p": -12, "f": -15, "a": -18, "z": -21, "y": -24}
@@ -551,16 +558,26 @@ def replay_failure(ctx, fj):
 
 READY = True
 MANIFEST = {
-    "level_text": "Kernel-checked theorems over a Lean model of units.py instantiated with the tables and regex "
-                  "shapes regenerated from the source on every run: the complete prefix x unit x power table is "
-                  "atomic/SI and splits into exactly its triple (decide +kernel over all 6510 entries, lifted to a "
-                  "forall by list membership), scaling equals the prefix ratio to the power, composes and inverts "
-                  "(algebra in Q), different unit/power is refused, products/quotients are compound for any tail, "
-                  "and the sanitizer is idempotent for every string. The hand-written part of the model (regex "
-                  "engine, cascade order) is tied to the code by complete-table differential runs.",
-    "level_note": "Trusted: Lean kernel; axioms propext/Classical.choice/Quot.sound; the units.py translator; the "
+    "level_text": "Kernel-checked theorems over a Lean model of units.py instantiated with tables, regex shapes and "
+                  "statement shapes regenerated from the source on every run. For EVERY text of the POWER grammar "
+                  "(any number of digits; structural proof, only prefix x unit is closed by decide +kernel) each "
+                  "prefix-unit-power combination is atomic/SI and splits into exactly its triple; scaling is the "
+                  "prefix ratio raised to that integer power, composes and inverts (algebra in Q); scalable between "
+                  "atoms iff same unit and power text, otherwise InvalidUnit; scalable is symmetric/transitive and "
+                  "reflexive exactly on SI strings. is_atomic accepts exactly the table atoms (+ optional final "
+                  "newline). Products/quotients of any length are compound; split_compound returns their atoms in "
+                  "order, inverted after '/', and invert_power negates the power (both after fix: commits). "
+                  "sanitizer is idempotent for every string, fixes every atom, ignores blanks and maps the micro "
+                  "spellings to the u-prefixed atom. The statement shape of scaling() (shortcut, prefix chain, "
+                  "assigned expressions, power) and the branch table of invert_power are generated and proved "
+                  "equal to the hand model for all inputs. The -3..3 table theorems (6510 entries, decide +kernel) "
+                  "are kept. The hand-written regex engine is tied to the code by complete-table differential runs.",
+    "level_note": "Trusted: Lean kernel; axioms propext/Classical.choice/Quot.sound; the three units.py translators "
+                  "(tables + regex shapes, invert_power/split_compound shape, scaling shape); the "
                   "backtracking-matcher stand-in for Python's re (ASCII digits only); float results compared to the "
-                  "exact rational within 1e-13 relative.",
-    "technique": "Lean 4 proof (decide +kernel over regenerated tables + structural lemmas) with differential "
-                 "correspondence",
+                  "exact rational within 1e-13 relative (powers generated so the factor stays inside the float "
+                  "range). split_compound/invert_power are modelled and proved but are not part of the property "
+                  "text, so the oracle does not judge them (correspondence does).",
+    "technique": "Lean 4 proof (structural lifting lemmas over the regex pieces + decide +kernel over regenerated "
+                 "tables) with differential correspondence",
 }
